@@ -123,8 +123,40 @@ fn leaked_guard() {
     }
 }
 
+/// C07 with a leaked guard: ecs_iter_destroy! owns the world exclusively and must visit and destroy
+/// as always (or, if something panics, leave every entity whole or absent).
+fn leaked_guard_iter_destroy() {
+    reg_reset();
+    let r = guard(|| {
+        let mut w = Ws::new();
+        for i in 0..4u64 {
+            w.s_4.create((Ca::make(10 + i, 1), Da::make(20 + i, 2)));
+        }
+        w.s_1.create((Ca::make(30, 1), P1(1)));
+        std::mem::forget(w.s_4.borrow_slice::<Ca>());
+        let mut visited = 0usize;
+        let res = guard(|| {
+            ecs_iter_destroy!(w, |_c: &Ca| {
+                visited += 1;
+                if visited % 2 == 0 { EcsStepDestroy::ContinueDestroy } else { EcsStepDestroy::Continue }
+            });
+        });
+        let (l4, l1) = (w.s_4.len(), w.s_1.len());
+        let consistent = w.s_4.iter().count() == l4 && w.s_4.entities().len() == l4;
+        (res.is_ok(), visited, l4, l1, consistent)
+    });
+    match r {
+        Ok((ok, visited, l4, l1, consistent)) => {
+            let errs = REG.with(|r| r.borrow().errors.len());
+            println!("L2 loop_ok={} visited={} left={}/{} consistent={} errors={}", ok as u8, visited, l4, l1, consistent as u8, errs)
+        }
+        Err(c) => println!("L2 panic {}", c),
+    }
+}
+
 pub fn run() {
     leaked_guard();
+    leaked_guard_iter_destroy();
     scenario!("S1", S1, s_1, |t: u64| (Ca::make(t, 1), P1(t)), 1);
     scenario!("S2", S2, s_2, |t: u64| (P1(t), Ca::make(t, 1)), 1);
     scenario!("S3", S3, s_3, |t: u64| (P1(t), Ca::make(t, 1), Cz::make(0, 0)), 1);
